@@ -136,9 +136,8 @@ func exec(line string) string {
 			m.input("p", chunk, func(p []byte) {
 				_, panicked = hx.PanicText(func() { cur.Write(p) })
 			})
-			if panicked {
+			if panicked { // the panic is raised before anything changes: the XOF stays usable for Reads
 				outs = append(outs, "panic")
-				return strings.Join(outs, ",") + " mut=" + m.String()
 			}
 		default:
 			return "bad-op"
@@ -169,9 +168,123 @@ func readSize(r *hx.Rand, size int) int {
 	}
 }
 
+// classify simulates the position bookkeeping of Read over an op list and records which arm of Read every
+// rd/sk step takes (table read-arm) and which features the history combines.
+func classify(cv *cover, ops []string, length, size int, keyed bool, msgLen int) {
+	type pos struct {
+		remaining uint64
+		offset    int
+		read      bool
+	}
+	fresh := func() pos {
+		rem := uint64(length)
+		if length == 0 {
+			rem = uint64(size) << 32
+		}
+		return pos{remaining: rem}
+	}
+	cur, oth := fresh(), fresh()
+	hasOth := false
+	feats := map[string]bool{}
+	if keyed {
+		feats["keyed"] = true
+	}
+	if length == 0 {
+		feats["unknown-len"] = true
+	} else if length < size {
+		feats["short-len"] = true
+	} else if length%size == 0 {
+		feats["len-multiple"] = true
+	}
+	if msgLen == 0 {
+		feats["empty-msg"] = true
+	}
+	for _, op := range ops {
+		switch {
+		case op == "c":
+			oth, hasOth = cur, true
+			feats["clone"] = true
+		case op == "x":
+			if hasOth {
+				cur, oth = oth, cur
+				feats["swap"] = true
+			}
+		case op == "r":
+			if cur.read {
+				feats["reset-after-read"] = true
+			}
+			cur = fresh()
+		case op == "z":
+			feats["blocksize"] = true
+		case op[0] == 'w':
+			if cur.read {
+				feats["write-after-read"] = true
+			}
+		case strings.HasPrefix(op, "rd") || strings.HasPrefix(op, "sk"):
+			var n int
+			fmt.Sscanf(op[2:], "%d", &n)
+			if op[0] == 's' {
+				feats["skip"] = true
+			}
+			cur.read = true
+			if cur.remaining == 0 {
+				cv.hit("read-arm", "eof")
+				feats["eof"] = true
+				continue
+			}
+			if n == 0 {
+				cv.hit("read-arm", "zero-read")
+				feats["zero-read"] = true
+				continue
+			}
+			if uint64(n) > cur.remaining {
+				n = int(cur.remaining)
+				cv.hit("read-arm", "clipped-to-remaining")
+			}
+			if cur.offset > 0 {
+				br := size - cur.offset
+				if n < br {
+					cv.hit("read-arm", "buffered-partial")
+					cur.offset += n
+					cur.remaining -= uint64(n)
+					continue
+				}
+				cv.hit("read-arm", "buffered-drain")
+				n -= br
+				cur.offset = 0
+				cur.remaining -= uint64(br)
+			}
+			if n/size > 0 {
+				cv.hit("read-arm", "full-nodes")
+				cur.remaining -= uint64(n / size * size)
+			}
+			if todo := n % size; todo > 0 {
+				if cur.remaining < uint64(size) {
+					cv.hit("read-arm", "last-short-node")
+					feats["last-short-node"] = true
+				} else {
+					cv.hit("read-arm", "partial-node")
+				}
+				cur.offset = todo
+				cur.remaining -= uint64(todo)
+			}
+		}
+	}
+	var fl []string
+	for f := range feats {
+		fl = append(fl, f)
+	}
+	cv.pairs(fl...)
+}
+
 func gen(g *hx.Gen) {
 	r := g.R
-	n := g.Count(3000, 60000)
+	cv := newCover(g)
+	cv.declare("read-arm", 8)
+	cv.declare("dispatch.b", 4)
+	cv.declare("dispatch.s", 4)
+	defer cv.report()
+	n := g.Count(2500, 60000)
 	for i := 0; i < n; i++ {
 		alg := r.PickStr("b", "s")
 		size, bs, maxLen := 64, 128, 70000
@@ -207,6 +320,9 @@ func gen(g *hx.Gen) {
 		default:
 			length = r.Range(1, 600)
 		}
+		if r.Chance(1, 10) {
+			length = r.Range(1, size-1) // shorter than one node: the only node is the short last node
+		}
 		kl := r.PickInt(0, 0, 0, 1, size, r.Range(1, size))
 		if r.Chance(1, 40) {
 			kl = size + r.Range(1, 2)
@@ -222,6 +338,7 @@ func gen(g *hx.Gen) {
 			total += k
 			ml -= k
 		}
+		total0 := total
 		// squeeze: until a little beyond the declared length (bounded), with clones and an occasional reset
 		budget := 700
 		if r.Chance(1, 25) {
@@ -266,17 +383,16 @@ func gen(g *hx.Gen) {
 				}
 			case 3:
 				if r.Chance(1, 6) {
-					ops = append(ops, "w1") // Write after Read: must panic
+					ops = append(ops, "w1") // Write after Read: must panic, and the XOF must stay readable
 					total++
 					g.Stat("write-after-read")
-					got = want
 				}
 			}
 		}
 		if r.Chance(1, 3) {
 			ops = append(ops, "rd5", "rd0") // at / after the end
 		}
-		if alg == "b" && r.Chance(1, 30) {
+		if alg == "b" && r.Chance(1, 8) {
 			ops = append(ops, "z")
 			g.Stat("blocksize")
 		}
@@ -290,7 +406,12 @@ func gen(g *hx.Gen) {
 			g.Stat("skip.past-node-65536")
 		}
 		g.Stat("alg." + alg)
-		g.Emit("xof alg=%s path=%s len=%d key=%s ops=%s data=%s", alg, hx.Pick(r, paths), length, hx.Hex(r.Bytes(kl)), hx.JoinStrs(ops), hx.Hex(r.Bytes(total)))
+		path := hx.Pick(r, paths)
+		cv.hit("dispatch."+alg, path)
+		if kl <= size && !((alg == "s" && length == 65535) || (alg == "b" && length == 4294967295)) {
+			classify(cv, ops, length, size, kl > 0, total0)
+		}
+		g.Emit("xof alg=%s path=%s len=%d key=%s ops=%s data=%s", alg, path, length, hx.Hex(r.Bytes(kl)), hx.JoinStrs(ops), hx.Hex(r.Bytes(total)))
 	}
 }
 
